@@ -45,11 +45,50 @@ impl StubFactory<'_> {
     }
 }
 
+// E12: the task queue as a contract. One `OrderedLocalQueue<Task>` operation is ~0.6 M program steps and two of them ran CBMC out
+// of memory at 40 GB (DESIGN 8.2), so the pool-level harnesses that need tasks to travel from submit to a worker replace
+// `OrderedLocalQueue::{push, pop, is_empty}` by an abstract shared task queue: a bag of at most 2 items from which `pop` takes ANY
+// queued item (symbolic choice) - a superset of what priorities, FIFO order and stealing between the pools' local queues can
+// produce, and, like the real process-wide queue, shared by every pool. What the queue itself guarantees is C03-C06's business.
+static mut BAG: [*mut std::ffi::c_void; 2] = [std::ptr::null_mut(); 2];
+static mut BAG_TAG: u64 = 0x2ba6;
+struct QStub<'l, T>(std::marker::PhantomData<&'l T>);
+impl<'l, T: std::fmt::Debug> QStub<'l, T> {
+    fn push(_this: &OrderedLocalQueue<'l, T>, item: T) {
+        unsafe {
+            let p: *mut std::ffi::c_void = Box::into_raw(Box::new(item)).cast();
+            if BAG[0].is_null() {
+                BAG[0] = p;
+            } else {
+                assert!(BAG[1].is_null(), "harness: abstract task queue holds at most 2 tasks");
+                BAG[1] = p;
+            }
+        }
+    }
+    fn pop(_this: &OrderedLocalQueue<'l, T>) -> Option<T> {
+        unsafe {
+            let first: bool = kani::any();
+            let i = if BAG[1].is_null() || (first && !BAG[0].is_null()) { 0 } else { 1 };
+            let p = BAG[i];
+            if p.is_null() {
+                return None;
+            }
+            BAG[i] = std::ptr::null_mut();
+            Some(*Box::from_raw(p.cast::<T>()))
+        }
+    }
+    fn is_empty(_this: &OrderedLocalQueue<'l, T>) -> bool {
+        unsafe { BAG[0].is_null() && BAG[1].is_null() }
+    }
+}
+
 fn small_queues() {
     unsafe {
         TASK_Q = std::ptr::from_mut(Box::leak(Box::new(OrderedWorkStealQueue::<Task<'static>>::new(2, 2)))).cast();
         CO_Q = std::ptr::from_mut(Box::leak(Box::new(OrderedWorkStealQueue::<SchedulableCoroutine>::new(2, 2)))).cast();
         Q_TAG = 1;
+        BAG = [std::ptr::null_mut(); 2];
+        BAG_TAG = 1;
         verif_sync::FULL_TIMEOUTS = 0;
         verif_sync::WAITED_NS = 0;
         verif_sync::NOTIFIES = 0;
@@ -71,6 +110,9 @@ fn pool(name: &str) -> CoroutinePool<'static> {
 #[kani::stub(alloc::fmt::format, fmt_stub)]
 #[kani::stub(crate::common::page_size, page_size_stub)]
 #[kani::stub(crate::common::beans::BeanFactory::get_or_default, StubFactory::get_or_default)]
+#[kani::stub(crate::common::ordered_work_steal::OrderedLocalQueue::push, QStub::push)]
+#[kani::stub(crate::common::ordered_work_steal::OrderedLocalQueue::pop, QStub::pop)]
+#[kani::stub(crate::common::ordered_work_steal::OrderedLocalQueue::is_empty, QStub::is_empty)]
 fn c02_join_returns_own_result() {
     small_queues();
     let p = pool("p");
@@ -159,6 +201,9 @@ macro_rules! c02_race_at {
         #[kani::stub(alloc::fmt::format, fmt_stub)]
 #[kani::stub(crate::common::page_size, page_size_stub)]
 #[kani::stub(crate::common::beans::BeanFactory::get_or_default, StubFactory::get_or_default)]
+        #[kani::stub(crate::common::ordered_work_steal::OrderedLocalQueue::push, QStub::push)]
+        #[kani::stub(crate::common::ordered_work_steal::OrderedLocalQueue::pop, QStub::pop)]
+        #[kani::stub(crate::common::ordered_work_steal::OrderedLocalQueue::is_empty, QStub::is_empty)]
         fn $name() {
             completion_races_with_wait($k);
         }
@@ -182,6 +227,9 @@ c02_race_at!(c02_completion_while_blocked, 1000);
 #[kani::stub(alloc::fmt::format, fmt_stub)]
 #[kani::stub(crate::common::page_size, page_size_stub)]
 #[kani::stub(crate::common::beans::BeanFactory::get_or_default, StubFactory::get_or_default)]
+#[kani::stub(crate::common::ordered_work_steal::OrderedLocalQueue::push, QStub::push)]
+#[kani::stub(crate::common::ordered_work_steal::OrderedLocalQueue::pop, QStub::pop)]
+#[kani::stub(crate::common::ordered_work_steal::OrderedLocalQueue::is_empty, QStub::is_empty)]
 fn c02_result_reaches_the_waiter_whichever_pool_ran_the_task() {
     small_queues();
     let a = pool("a");
@@ -349,6 +397,9 @@ fn task1(p: Option<usize>) -> Option<usize> {
 #[kani::stub(alloc::fmt::format, fmt_stub)]
 #[kani::stub(crate::common::page_size, page_size_stub)]
 #[kani::stub(crate::common::beans::BeanFactory::get_or_default, StubFactory::get_or_default)]
+#[kani::stub(crate::common::ordered_work_steal::OrderedLocalQueue::push, QStub::push)]
+#[kani::stub(crate::common::ordered_work_steal::OrderedLocalQueue::pop, QStub::pop)]
+#[kani::stub(crate::common::ordered_work_steal::OrderedLocalQueue::is_empty, QStub::is_empty)]
 fn c13_cancel_before_start_affects_only_that_task() {
     small_queues();
     CANCEL_TASKS.clear();
@@ -382,6 +433,9 @@ fn c13_cancel_before_start_affects_only_that_task() {
 #[kani::stub(alloc::fmt::format, fmt_stub)]
 #[kani::stub(crate::common::page_size, page_size_stub)]
 #[kani::stub(crate::common::beans::BeanFactory::get_or_default, StubFactory::get_or_default)]
+#[kani::stub(crate::common::ordered_work_steal::OrderedLocalQueue::push, QStub::push)]
+#[kani::stub(crate::common::ordered_work_steal::OrderedLocalQueue::pop, QStub::pop)]
+#[kani::stub(crate::common::ordered_work_steal::OrderedLocalQueue::is_empty, QStub::is_empty)]
 fn c13_waiter_of_a_cancelled_task_is_not_left_blocked() {
     small_queues();
     CANCEL_TASKS.clear();
@@ -432,6 +486,9 @@ fn any_co_state() -> SchedulableCoroutineState {
 #[kani::stub(alloc::fmt::format, fmt_stub)]
 #[kani::stub(crate::common::page_size, page_size_stub)]
 #[kani::stub(crate::common::beans::BeanFactory::get_or_default, StubFactory::get_or_default)]
+#[kani::stub(crate::common::ordered_work_steal::OrderedLocalQueue::push, QStub::push)]
+#[kani::stub(crate::common::ordered_work_steal::OrderedLocalQueue::pop, QStub::pop)]
+#[kani::stub(crate::common::ordered_work_steal::OrderedLocalQueue::is_empty, QStub::is_empty)]
 fn c11_listener_counts_terminated_workers() {
     small_queues();
     let p = pool("p");
@@ -464,6 +521,9 @@ fn c11_listener_counts_terminated_workers() {
 #[kani::stub(alloc::fmt::format, fmt_stub)]
 #[kani::stub(crate::common::page_size, page_size_stub)]
 #[kani::stub(crate::common::beans::BeanFactory::get_or_default, StubFactory::get_or_default)]
+#[kani::stub(crate::common::ordered_work_steal::OrderedLocalQueue::push, QStub::push)]
+#[kani::stub(crate::common::ordered_work_steal::OrderedLocalQueue::pop, QStub::pop)]
+#[kani::stub(crate::common::ordered_work_steal::OrderedLocalQueue::is_empty, QStub::is_empty)]
 fn c11_submit_co_respects_max_size() {
     small_queues();
     let p = pool("p");
